@@ -120,6 +120,11 @@ Fixpoint retx_ok (planned : bool) (layout : option (list lframe)) (st : rstate) 
         ranges_eqb (rQueue st) before && ranges_eqb (rQueue st') after && rres_eqb res obs &&
         path_ok layout (marshal_path planned layout popped) aspacked &&
         retx_ok planned layout st' r
+      | RCoalesce before popped after aspacked count obs =>
+        ranges_eqb (rQueue st) before && ranges_eqb (rQueue st') after && rres_eqb res obs &&
+        path_ok layout (marshal_path planned layout popped) aspacked &&
+        (count =? coalesced_count popped false true) &&
+        retx_ok planned layout st' r
       | _ => retx_ok planned layout st' r
       end
     end
